@@ -3019,7 +3019,133 @@ def root_content(prog: Program) -> RuleResult:
     return res
 
 
+# ---------------------------------------------------------------------------
+# REFINEMENT-PAIRING
+
+TRAVERSALS = {"traverse", "iter_leaves", "get_leaves", "iter_descendants", "get_descendants", "iter_leaf_names", "get_leaf_names"}
+
+
+def refinement_pairing(prog: Program) -> RuleResult:
+    res = RuleResult(
+        "REFINEMENT-PAIRING",
+        "the data of an input is carried over to a refinement by NAME (through the dictionary form), never by "
+        "position: in `binarize` and the methods it calls, no `zip` pairs a traversal of one tree with a traversal "
+        "of another - the refinement enumerator regroups children, so the k-th leaf of a refinement is not the k-th "
+        "leaf of the input",
+    )
+    mod = prog.module(MODEL)
+    n = 0
+    for cname in ("ReconciliationInput", "SuperReconciliationInput"):
+        cls = prog.cls(MODEL, cname)
+        methods = {m.name: m for m in cls.body if isinstance(m, FuncNode)}
+        # methods of the base class are reachable from a subclass's binarize too
+        base = prog.cls(MODEL, "ReconciliationInput")
+        all_methods = {m.name: m for m in base.body if isinstance(m, FuncNode)}
+        all_methods.update(methods)
+        if "binarize" not in methods:
+            continue
+        todo, seen = ["binarize"], set()
+        while todo:
+            name = todo.pop()
+            if name in seen or name not in all_methods:
+                continue
+            seen.add(name)
+            for c in ast.walk(all_methods[name]):
+                if isinstance(c, ast.Call) and isinstance(c.func, ast.Attribute) and dotted(c.func.value) in ("self", "cls", "self.__class__"):
+                    todo.append(c.func.attr)
+        for name in sorted(seen):
+            if name in ("to_dict", "from_dict", "_from_dict"):
+                continue
+            fn = all_methods[name]
+            n += 1
+            construct = f"{MODEL}:{cname}.{name}/paired-by-name"
+            bad = None
+            for c in ast.walk(fn):
+                if not (isinstance(c, ast.Call) and dotted(c.func) == "zip" and len(c.args) >= 2):
+                    continue
+                recvs = []
+                for a in c.args:
+                    src = a
+                    if isinstance(a, ast.Name):
+                        got = reaching(fn, a.id, c)
+                        src = got if got is not None and not isinstance(got, Opaque) else a
+                    while isinstance(src, ast.Call) and dotted(src.func) in ("list", "tuple", "sorted", "iter") and src.args:
+                        src = src.args[0]
+                    if isinstance(src, (ast.GeneratorExp, ast.ListComp)) and src.generators:
+                        src = src.generators[0].iter  # a per-node expression over a traversal keeps its order
+                    if isinstance(src, ast.Call) and isinstance(src.func, ast.Attribute) and src.func.attr in TRAVERSALS:
+                        recvs.append(unparse(src.func.value))
+                if len(set(recvs)) >= 2:
+                    bad = (c, recvs)
+            if bad:
+                res.fail(construct, f"`{short(bad[0], 80)}` pairs the nodes of `{bad[1][0]}` with those of `{bad[1][1]}` by position: a refinement lists its leaves in another order than the input whenever it groups non-adjacent children", mod, bad[0])
+            else:
+                res.ok(construct, "no positional pairing of two trees")
+    if n < 1:
+        raise AnalysisError("REFINEMENT-PAIRING: binarize not found")
+    return res
+
+
+# ---------------------------------------------------------------------------
+# CLOSURE-LATE-BINDING
+
+
+def _target_names_of(t: ast.AST) -> Set[str]:
+    return {x.id for x in ast.walk(t) if isinstance(x, ast.Name)}
+
+
+def closure_late_binding(prog: Program) -> RuleResult:
+    res = RuleResult(
+        "CLOSURE-LATE-BINDING",
+        "a function object that outlives the iteration that created it does not read the iteration variable: a "
+        "`lambda` that is the element / value of a comprehension, or is stored into a container inside a `for` "
+        "loop, sees the LAST value of the loop variable when it is finally called (every event combinator built "
+        "this way prices its pairs with the cost of the last event kind)",
+    )
+    n = 0
+    for mod in sorted(prog.modules.values(), key=lambda m: m.relpath):
+        key = _modkey(mod)
+        bad = []
+        for node in ast.walk(mod.tree):
+            stored: List[Tuple[ast.Lambda, Set[str]]] = []
+            if isinstance(node, (ast.ListComp, ast.SetComp, ast.DictComp)):
+                # (a generator expression hands its closures out one at a time: they may be called while their
+                # iteration is still the current one)
+                n += 1
+                loopvars = set()
+                for g in node.generators:
+                    loopvars |= _target_names_of(g.target)
+                elts = [node.value] if isinstance(node, ast.DictComp) else [node.elt]
+                for e in elts:
+                    for lam in ([e] if isinstance(e, ast.Lambda) else [x for x in (e.elts if isinstance(e, (ast.Tuple, ast.List)) else []) if isinstance(x, ast.Lambda)]):
+                        stored.append((lam, loopvars))
+            elif isinstance(node, ast.For):
+                n += 1
+                loopvars = _target_names_of(node.target)
+                for st in ast.walk(node):
+                    if isinstance(st, ast.Assign) and isinstance(st.value, ast.Lambda) and any(isinstance(t, ast.Subscript) for t in st.targets):
+                        stored.append((st.value, loopvars))
+                    if isinstance(st, ast.Call) and isinstance(st.func, ast.Attribute) and st.func.attr in ("append", "add", "setdefault") and any(isinstance(a, ast.Lambda) for a in st.args):
+                        stored.extend((a, loopvars) for a in st.args if isinstance(a, ast.Lambda))
+            for lam, loopvars in stored:
+                params = {a.arg for a in lam.args.args + lam.args.kwonlyargs + lam.args.posonlyargs}
+                free = {x.id for x in ast.walk(lam.body) if isinstance(x, ast.Name) and isinstance(x.ctx, ast.Load)} - params
+                late = sorted(free & loopvars)
+                if late:
+                    bad.append((lam, late))
+        if bad:
+            for i, (lam, late) in enumerate(bad):
+                res.fail(f"{key}:<module>/late-binding#{i}", f"`{short(lam, 70)}` is kept beyond the iteration that creates it and reads the iteration variable {late}: when it is called, that variable holds the value of the LAST iteration", mod, lam)
+        else:
+            res.ok(f"{key}:<module>/late-binding", "no stored closure reads an iteration variable")
+    if n < 30:
+        raise AnalysisError(f"CLOSURE-LATE-BINDING: only {n} loops / comprehensions found in the package")
+    return res
+
+
 RULES = {
+    "CLOSURE-LATE-BINDING": closure_late_binding,
+    "REFINEMENT-PAIRING": refinement_pairing,
     "ROOT-CONTENT": root_content,
     "TAG-TEST-CONSISTENT": tag_test_consistent,
     "GEOM-NO-ORDER": geom_no_order,
